@@ -375,41 +375,52 @@ func runC17(p *Prog, r *Report) {
 		}
 		n++
 		r.Fn(FName(m))
-		var bad ssa.Instruction
-		// receiver-sensitive: the clean-up of ANOTHER counter (o.Count() in Append) says nothing about this one
-		onSelf := func(in ssa.Instruction) (callee *ssa.Function, self bool) {
-			ci, ok := in.(ssa.CallInstruction)
-			if !ok {
-				return nil, false
+		// receiver-sensitive: the clean-up of ANOTHER counter (o.Count() in Append) says nothing about this one, and
+		// a call on another counter must be to a routine that cleans THAT counter before it touches its buckets
+		var firstBad func(m *ssa.Function, depth int) ssa.Instruction
+		firstBad = func(m *ssa.Function, depth int) ssa.Instruction {
+			var bad ssa.Instruction
+			onSelf := func(in ssa.Instruction) (callee *ssa.Function, self bool) {
+				ci, ok := in.(ssa.CallInstruction)
+				if !ok {
+					return nil, false
+				}
+				f := ci.Common().StaticCallee()
+				if f == nil || recvNamed(f) != c.typ || len(ci.Common().Args) == 0 {
+					return f, false
+				}
+				return f, stripConv(ci.Common().Args[0]) == ssa.Value(m.Params[0])
 			}
-			f := ci.Common().StaticCallee()
-			if f == nil || recvNamed(f) != c.typ || len(ci.Common().Args) == 0 {
-				return f, false
+			cleanSelf := func(in ssa.Instruction) bool {
+				f, self := onSelf(in)
+				if f != nil && recvNamed(f) == c.typ {
+					return self && (f == c.cleanup || clean.Must(f))
+				}
+				return clean.Is(in)
 			}
-			return f, stripConv(ci.Common().Args[0]) == ssa.Value(m.Params[0])
-		}
-		cleanSelf := func(in ssa.Instruction) bool {
-			f, self := onSelf(in)
-			if f != nil && recvNamed(f) == c.typ {
-				return self && (f == c.cleanup || clean.Must(f))
-			}
-			return clean.Is(in)
-		}
-		seen := Reach(m, nil, cleanSelf, nil)
-		for in := range seen {
-			if cleanSelf(in) {
-				continue
-			}
-			f, self := onSelf(in)
-			if f != nil && recvNamed(f) == c.typ && !self {
-				continue // a method of another counter: that counter's own obligation
-			}
-			if access.MayInstr(in) {
-				if bad == nil || in.Pos() < bad.Pos() {
-					bad = in
+			for in := range Reach(m, nil, cleanSelf, nil) {
+				if cleanSelf(in) {
+					continue
+				}
+				f, self := onSelf(in)
+				if f != nil && recvNamed(f) == c.typ && !self {
+					// a method of another counter: fine when that routine cleans its own counter first
+					if depth < 3 && f.Blocks != nil && access.May(f) && firstBad(f, depth+1) != nil {
+						if bad == nil || in.Pos() < bad.Pos() {
+							bad = in
+						}
+					}
+					continue
+				}
+				if access.MayInstr(in) {
+					if bad == nil || in.Pos() < bad.Pos() {
+						bad = in
+					}
 				}
 			}
+			return bad
 		}
+		bad := firstBad(m, 0)
 		msg := ""
 		if bad != nil {
 			msg = "bucket access at " + p.InstrPos(bad) + " is reachable without a preceding clean-up: stale slots from more than a window ago are counted (reads) or added to (increments)"
